@@ -1,4 +1,18 @@
-(* placeholder until the proofs are integrated *)
-From DictIO Require Import Chars Str Value Scalar.
-Theorem C09_placeholder : True. Proof. exact I. Qed.
-Print Assumptions C09_placeholder.
+(* C09  JSON: the JSON front end leaves a dollar-free, include-free tree exactly as json.loads delivered it
+   (json.dumps / json.loads themselves are trusted and exercised by the check). *)
+From Coq Require Import NArith ZArith List Bool.
+From DictIO Require Import Chars Str Value Scalar SDict TokParser Reader TreeSpec LayoutSpec SemProofs.
+Import ListNotations.
+
+Theorem C09_front_end_identity : forall dir c kvs,
+  wf (Dict kvs) = true -> ordinary_kvs kvs = true -> no_include_keys kvs = true ->
+  sd_data (pr_sd (json_parse dir c kvs)) = kvs /\ pr_count (json_parse dir c kvs) = c /\
+  sd_inc (pr_sd (json_parse dir c kvs)) = [] /\ sd_expr (pr_sd (json_parse dir c kvs)) = [].
+Proof. exact json_front_end_identity. Qed.
+Print Assumptions C09_front_end_identity.
+
+(* string leaves keep their string type on the JSON string route: no re-typing happens in the front end *)
+Theorem C09_no_retyping : forall s c tab, has_char c_dollar s = false ->
+  json_expressions (Leaf (SStr s)) c tab = (Leaf (SStr s), c, tab).
+Proof. exact json_leaf_untouched. Qed.
+Print Assumptions C09_no_retyping.
